@@ -490,72 +490,159 @@ def check_markers(program, rep):
                            ('resource_dict_transformer',
                             ['RESOURCE_STRING_REGEX', 'HANDLE_STRING_REGEX'])):
         f = program.func('desper.model.world', fname)
-        inner = [n for n in ast.walk(f.node) if isinstance(n, ast.FunctionDef)
-                 and n is not f.node]
-        if len(inner) != 1:
+        # the function mapped over the arguments
+        mf = None
+        mf_owner = f.node
+        for n in ast.walk(f.node):
+            if isinstance(n, ast.Call) and dotted(n.func) == 'map' \
+                    and len(n.args) == 2 and isinstance(n.args[0], ast.Name):
+                nm = n.args[0].id
+                for d in ast.walk(f.node):
+                    if isinstance(d, ast.FunctionDef) and d.name == nm:
+                        mf = d
+                if mf is None:
+                    r = program.lookup(f.module, nm)
+                    if r and r[0] == 'func':
+                        mf = r[1].node
+                break
+        if mf is None:
+            # helper extracted around the whole tail: follow one level
+            for n in ast.walk(f.node):
+                if isinstance(n, ast.Call) and isinstance(n.func, ast.Name) \
+                        and n.func.id.startswith('_') and n.args \
+                        and isinstance(n.args[0], ast.Name):
+                    nm = n.args[0].id
+                    for d in ast.walk(f.node):
+                        if isinstance(d, ast.FunctionDef) and d.name == nm:
+                            mf = d
+        if mf is None:
             rep.inconclusive('C15.markers', f.where, fname,
-                             'map function not found')
+                             'the function mapped over the arguments was not '
+                             'found')
             continue
-        mf = inner[0]
         arg = mf.args.args[0].arg
-        for rx in regexes:
-            uses = [n for n in ast.walk(mf) if isinstance(n, ast.Call)
-                    and isinstance(n.func, ast.Attribute)
-                    and norm(n.func.value) == rx]
-            ok = len(uses) == 1 and uses[0].func.attr in ('match',
-                                                          'fullmatch') \
-                and [norm(a) for a in uses[0].args] == [arg]
-            rep.check(ok, 'C15.markers', f.where,
-                      uses[0] if uses else rx,
-                      f'{rx} is applied at the start of the argument',
-                      f'{rx} is not applied with match/fullmatch on the '
-                      'argument (search finds the marker inside ordinary '
-                      'text, which is then replaced instead of passing '
-                      'through unchanged)', line=getattr(
-                          uses[0], 'lineno', mf.lineno) if uses else None)
-        # non-strings pass through, fall-through returns arg
-        w = Walker(program, _D(program))
-        sub = type('F', (), {})()
+        scope = [f.node, mf]
+        bad_calls = [n for sc in scope for n in ast.walk(sc)
+                     if isinstance(n, ast.Call) and isinstance(
+                         n.func, ast.Attribute) and n.func.attr in (
+                             'search', 'findall', 'finditer', 'sub', 'subn',
+                             'split') and any(
+                                 rx in norm(n.func.value) or 'regex' in norm(
+                                     n.func.value).lower() for rx in regexes)]
+        good_calls = [n for sc in scope for n in ast.walk(sc)
+                      if isinstance(n, ast.Call) and isinstance(
+                          n.func, ast.Attribute) and n.func.attr in (
+                              'match', 'fullmatch') and [norm(a)
+                                                         for a in n.args]
+                      == [arg]]
+        named = all(any(isinstance(x, ast.Name) and x.id == rx
+                        for sc in scope for x in ast.walk(sc))
+                    for rx in regexes)
+        rep.check(not bad_calls and bool(good_calls) and named, 'C15.markers',
+                  f.where, bad_calls[0] if bad_calls else (
+                      good_calls[0] if good_calls else fname),
+                  ', '.join(regexes) + ' applied at the start of the argument',
+                  'a marker regex is not applied with match/fullmatch on the '
+                  'argument (search finds the marker inside ordinary text, '
+                  'which is then replaced instead of passing through '
+                  'unchanged)', line=getattr(
+                      (bad_calls or good_calls or [mf])[0], 'lineno',
+                      mf.lineno))
+
+        class _MD(_D):
+            def for_counts(self, st, node, itersym):
+                if isinstance(itersym.node, (ast.Tuple, ast.List)):
+                    return range(0, len(itersym.node.elts) + 1)
+                return [0, 1]
+        w = Walker(program, _MD(program))
         from dlint.model import FuncInfo
         fi = FuncInfo(f.module, None, mf.name, mf)
         exits = w.run(fi, None)
+
+        def resolve(text, items):
+            """Substitute loop items of tuple displays, apply lambdas."""
+            import copy
+            tree = ast.parse(text, mode='eval').body
+
+            class R(ast.NodeTransformer):
+                def visit_Subscript(self, n):
+                    n = self.generic_visit(n)
+                    if isinstance(n.value, (ast.Tuple, ast.List)) \
+                            and isinstance(n.slice, ast.Constant) \
+                            and isinstance(n.slice.value, int) \
+                            and n.slice.value < len(n.value.elts):
+                        return n.value.elts[n.slice.value]
+                    return n
+
+                def visit_Name(self, n):
+                    if n.id in items:
+                        return copy.deepcopy(items[n.id])
+                    return n
+
+                def visit_Call(self, n):
+                    n = self.generic_visit(n)
+                    if isinstance(n.func, ast.Lambda) and len(
+                            n.func.args.args) == len(n.args) \
+                            and not n.keywords:
+                        m = {a.arg: v for a, v in zip(n.func.args.args,
+                                                      n.args)}
+
+                        class S(ast.NodeTransformer):
+                            def visit_Name(self, x):
+                                return copy.deepcopy(m[x.id]) \
+                                    if x.id in m else x
+                        return S().visit(copy.deepcopy(n.func.body))
+                    return n
+            for _ in range(3):
+                tree = R().visit(tree)
+            return norm(tree)
         bad = None
         for ex in exits:
             if ex.kind != 'return':
-                bad = (mf, 'a path of the map function does not return')
+                bad = bad or (mf, 'a path of the map function does not '
+                              'return')
                 continue
-            conds = {e.sym.text: e.extra for e in ex.state.trace
-                     if e.kind == 'cond'}
-            val = ex.payload.text if ex.payload else None
+            items = {}
+            for e in ex.state.trace:
+                if e.kind == 'for-item' and isinstance(
+                        e.sym.node, (ast.Tuple, ast.List)) and isinstance(
+                            e.extra, int) and e.extra < len(e.sym.node.elts):
+                    items[e.target.text] = e.sym.node.elts[e.extra]
+            conds = {resolve(e.sym.text, items): e.extra
+                     for e in ex.state.trace if e.kind == 'cond'}
+            val = resolve(ex.payload.text, items) if ex.payload else None
             isstr = conds.get(f'isinstance({arg}, str)')
             matched = [t for t, v in conds.items() if t.endswith(' is None')
-                       and v is False and '.match(' in t or (
-                           t.endswith(' is None') and v is False
-                           and '.fullmatch(' in t)]
+                       and v is False and ('.match(' in t
+                                           or '.fullmatch(' in t)]
             if isstr is False and val != arg:
-                bad = (ex.node, 'a non-string argument is not returned '
-                       'unchanged')
-            if isstr is True and not matched and val != arg:
-                bad = (ex.node, 'a string that matches no marker is not '
-                       'returned unchanged')
+                bad = bad or (ex.node, 'a non-string argument is not '
+                              'returned unchanged')
+            if isstr is not False and not matched and val != arg:
+                bad = bad or (ex.node, 'a string that matches no marker is '
+                              'not returned unchanged')
             if matched:
-                rx = matched[-1].split('.')[0]
-                grp = f"{matched[-1][:-len(' is None')]}.groups()[0]"
+                m = matched[-1][:-len(' is None')]
+                rx = m.split('.')[0]
+                grp = {f'{m}.groups()[0]', f'{m}.group(1)', f'{m}[1]'}
                 if rx == 'OBJECT_STRING_REGEX':
-                    if val != f'object_from_string({grp})':
-                        bad = (ex.node, '${...} is not replaced by '
-                               f'object_from_string(<name>): {val}')
-                elif rx == 'RESOURCE_STRING_REGEX':
-                    if not (val.startswith('root_map[') and val.endswith(
-                            ']')):
-                        bad = (ex.node, '$res{...} is not replaced by the '
-                               f'loaded resource root_map[path]: {val}')
-                elif rx == 'HANDLE_STRING_REGEX':
-                    if not (val.startswith('root_map.get(')):
-                        bad = (ex.node, '$handle{...} is not replaced by the '
-                               f'handle root_map.get(path): {val}')
+                    if val not in {f'object_from_string({g})' for g in grp}:
+                        bad = bad or (ex.node, '${...} is not replaced by '
+                                      f'object_from_string(<name>): {val}')
+                elif rx in ('RESOURCE_STRING_REGEX', 'HANDLE_STRING_REGEX'):
+                    keys = {f"root_map.split_char.join({g}.split('.'))"
+                            for g in grp}
+                    want = {f'root_map[{k}]' for k in keys} if rx.startswith(
+                        'RES') else {f'root_map.get({k})' for k in keys}
+                    if val not in want:
+                        bad = bad or (
+                            ex.node, ('$res{...} is not replaced by the '
+                                      'loaded resource root_map[path]: '
+                                      if rx.startswith('RES') else
+                                      '$handle{...} is not replaced by the '
+                                      'handle root_map.get(path): ') + str(val))
         rep.check(bad is None, 'C15.markers', f.where,
-                  bad[0] if bad else f'{fname}.map_function',
+                  bad[0] if bad else f'{fname}: mapped function',
                   'references are replaced by the named thing, everything '
                   'else passes through unchanged', bad[1] if bad else '',
                   line=getattr(bad[0], 'lineno', mf.lineno) if bad
@@ -636,3 +723,26 @@ def run(program, rep, tier):
     c01.check_fresh_id(program, rep)
     for o in rep.obs[n0:]:
         o.rule = 'C15.ids'
+    # once enabled, the postponed on_add / on_world_load are released once
+    # and in order (the C04 release rules)
+    from rules import c04, lifecycle
+    n0 = len(rep.obs)
+    c04.check_release(program, rep)
+    for o in rep.obs[n0:]:
+        o.rule = o.rule.replace('C04.', 'C15.released-')
+    # exactly the listed processors: a listed processor only replaces one of
+    # exactly its own type (C07.replace-exact)
+    out = lifecycle.analyse_world(program, rep, 'C15', None, 'C15')
+    for (rule, fn, text, line, kind, table), r in sorted(
+            out['results'].items(), key=lambda kv: (kv[0][1], kv[0][3] or 0)):
+        if rule != 'replace-exact' or table != 'self._processors':
+            continue
+        site = f'desper/logic/world.py:{fn}'
+        if r['bad']:
+            rep.bad('C15.processors', site, text, r['bad'][0]['why'],
+                    detail={'path': r['bad'][0]['path']}, line=line)
+        else:
+            rep.ok('C15.processors', site, text,
+                   'a listed processor replaces only one of exactly its type',
+                   line=line)
+
